@@ -23,7 +23,7 @@ From KV Require Import Base.Sx Gen.Generated Model.SensorToCat Model.SensorToCat
   Model.SensorToCatTables Proofs.SensorToCatTablesP Proofs.SensorToCatMoreP Model.SensorToCatValues
   Proofs.SensorToCatValuesP
   Proofs.SensorToCatP Proofs.SensorToCatInitP Proofs.SensorToCatLawsP Proofs.SensorToCatSrcP Proofs.SensorToCatTopP
-  Proofs.SensorToCatPathP.
+  Proofs.SensorToCatPathP Model.SensorToCatHist Proofs.SensorToCatHistP.
 Import ListNotations.
 Open Scope Z_scope.
 
@@ -265,6 +265,77 @@ Theorem C10_tables_transformed : Forall (fun t => offending t = []) c10_all_tabl
 Proof. exact tables_transformed. Qed.
 Print Assumptions C10_tables_transformed.
 Definition C10_example_tables := offending_example.
+
+(* ================= the dump-edge convention of the public arguments (dump MID times + dump period) =================
+   dump k of the rule ENDS half a period after its own mid time; dump 0 starts one full period before that end; every
+   later dump starts where the previous one ended (irregular grids included); one interval per dump *)
+Theorem C10_dump_edge_convention : forall mids P k lo hi, nth_error (dump_intervals mids P) k = Some (lo, hi) ->
+  exists m, nth_error mids k = Some m /\ hi = m + P / 2 /\
+    match k with
+    | O => lo = m + P / 2 - P
+    | S j => exists m', nth_error mids j = Some m' /\ lo = m' + P / 2
+    end.
+Proof. exact dump_intervals_nth. Qed.
+Print Assumptions C10_dump_edge_convention.
+
+(* on a regular grid with period 2h dump k covers exactly (mid_k - h, mid_k + h]; and the rule every other theorem
+   speaks about is the per-dump choice over exactly these intervals *)
+Theorem C10_dump_edge_regular : forall mids h k lo hi, regular_grid mids (2 * h) ->
+  nth_error (dump_intervals mids (2 * h)) k = Some (lo, hi) ->
+  exists m, nth_error mids k = Some m /\ lo = m - h /\ hi = m + h.
+Proof. exact dump_edge_regular. Qed.
+Print Assumptions C10_dump_edge_regular.
+
+Theorem C10_rule_over_dump_intervals : forall ts vals mids P tr init greedy l, rule ts vals mids P tr init greedy = Ok l ->
+  List.length (dump_intervals mids P) = List.length mids /\
+  exists st, l = map (dump_value (fun v => memZ v greedy) (combine ts (map (app_tr tr) vals)) st) (dump_intervals mids P).
+Proof. exact rule_over_intervals_len. Qed.
+Print Assumptions C10_rule_over_dump_intervals.
+
+(* "events after the last dump are ignored" means after its END (mid + P/2): with no greedy values the LAST sample at
+   or before the end of the last dump - in particular one in the second half of the last dump, after its mid time -
+   gives the last dump its value, whatever follows the end; nothing is trimmed at the last mid time *)
+Theorem C10_last_dump_event_counts : forall ts vals t v lts lvals mids P tr init ar,
+  c10_domain (ts ++ t :: lts) (vals ++ v :: lvals) mids P -> List.length ts = List.length vals ->
+  t <= last (dump_ends mids P) 0 -> Forall (fun u => last (dump_ends mids P) 0 < u) lts ->
+  exists l, per_dump_src (ts ++ t :: lts) (vals ++ v :: lvals) mids P tr init [] ar = Ok l
+            /\ last l 0 = app_tr tr v /\ List.length l = List.length mids.
+Proof. exact src_last_dump_event_counts. Qed.
+Print Assumptions C10_last_dump_event_counts.
+
+(* ================= histories: the conversion leaves the getter's raw samples alone =================
+   (decided from the REGENERATED lists of names written in place by sensor_to_categorical / _extract / the clean-up) *)
+Theorem C10_conversion_keeps_raw_samples : forall raw off tr, conv_raw raw off tr = raw.
+Proof. exact conv_raw_id. Qed.
+Print Assumptions C10_conversion_keeps_raw_samples.
+
+(* any sequence of conversions over one getter (different offsets, transforms - idempotent or not -, initial / greedy
+   values): the samples are what they were and EVERY result is the conversion of the ORIGINAL samples with its own
+   properties - independent of what was converted before *)
+Theorem C10_history_independent : forall has_status dflt mids P raw ops,
+  run_hist has_status dflt mids P raw ops = (raw, map (convert has_status dflt mids P raw) ops).
+Proof. exact run_hist_pure'. Qed.
+Print Assumptions C10_history_independent.
+
+(* through SensorCache.get with its cache and aliases sharing the getter: any order of gets of any names *)
+Theorem C10_cache_history : forall has_status dflt mids P pt raw gets,
+  run_cache has_status dflt mids P pt raw [] gets
+  = (raw, map (fun n => convert has_status dflt mids P raw (pt n)) gets).
+Proof. exact run_cache_fresh. Qed.
+Print Assumptions C10_cache_history.
+
+Theorem C10_alias_same_answer : forall has_status dflt mids P pt raw gets a b, pt a = pt b -> In a gets -> In b gets ->
+  forall k k' d, nth_error gets k = Some a -> nth_error gets k' = Some b ->
+  nth k (snd (run_cache has_status dflt mids P pt raw [] gets)) d
+  = nth k' (snd (run_cache has_status dflt mids P pt raw [] gets)) d.
+Proof. exact alias_same_answer. Qed.
+Print Assumptions C10_alias_same_answer.
+
+(* non-vacuity: two conversions with a non-idempotent transform give the same values; a machine that writes the
+   transformed values / shifted times back into the samples does not; quarter placements in the first and last dump *)
+Definition C10_example_history := hist_example.
+Definition C10_example_dump_edges := edge_example.
+Print Assumptions C10_example_history.
 
 (* ================= non-vacuity: hypotheses satisfiable, statements discriminate (all by vm_compute) =================
    one Example per theorem lives next to its lemma (Proofs/SensorToCatTopP.v and Proofs/SensorToCatPathP.v, names ex_...) *)
